@@ -1974,6 +1974,11 @@ class Interp:
     def compare(self, op, l: AVal, r: AVal, st: State, test):
         if getattr(self.hooks, 'record_comparisons', False):
             st.trace.append(Event('cmp', (op, l, r), test, st.frame.func))
+        oc = getattr(self.hooks, 'on_compare', None)
+        if oc is not None:
+            decided = oc(self, op, l, r, st, test)
+            if decided is not None:
+                return [(bool(decided), st)]
         neg = isinstance(op, (ast.IsNot, ast.NotEq, ast.NotIn))
         if isinstance(op, (ast.Is, ast.IsNot, ast.Eq, ast.NotEq)):
             # None tests
